@@ -275,6 +275,28 @@ def write_replay(ctx, idx, payload):
     return path
 
 
+def _self_check_evidence(ev):
+    """the evidence must validate against EVIDENCE.schema.json (an invalid file counts as no evidence); jsonschema is not
+    in the repo's venv, so the typed keys of the schema are checked by hand here and fully by tools/validate.py"""
+    cov = ev["coverage"]
+    ints = ("evaluations", "distinct_nontrivial", "states", "transitions", "traces_validated_against_impl", "obligations",
+            "discharged", "programs", "disagreements_checked")
+    for k in ints:
+        if k in cov and (not isinstance(cov[k], int) or isinstance(cov[k], bool) or cov[k] < 0):
+            raise TypeError(f"evidence coverage.{k} must be a non-negative integer, got {cov[k]!r}")
+    for k in ("rule", "checker_cmd", "explanation"):
+        if k in cov and not isinstance(cov[k], str):
+            raise TypeError(f"evidence coverage.{k} must be a string")
+    if "exhaustive" in cov and not isinstance(cov["exhaustive"], bool):
+        raise TypeError("evidence coverage.exhaustive must be a boolean")
+    if "samples" in cov and not isinstance(cov["samples"], list):
+        raise TypeError("evidence coverage.samples must be a list")
+    if "trusted_base" in cov and not all(isinstance(x, str) for x in cov["trusted_base"]):
+        raise TypeError("evidence coverage.trusted_base must be a list of strings")
+    if not all(isinstance(x, str) for x in ev.get("assumptions", [])):
+        raise TypeError("evidence assumptions must be strings")
+
+
 def write_evidence(ctx, level="proof", checker_cmd="", trusted_extra=(), violations=0):
     os.makedirs(EVID, exist_ok=True)
     obligations = len(ctx.theorems)
@@ -301,7 +323,12 @@ def write_evidence(ctx, level="proof", checker_cmd="", trusted_extra=(), violati
         "drifted_anchors": ctx.drifted_anchors,
         "notes": ctx.notes,
     }
-    cov.update(ctx.extra)
+    extra = dict(ctx.extra)
+    # the schema reserves `exhaustive` for a boolean; what was enumerated completely is described next to it
+    if "exhaustive" in extra and not isinstance(extra["exhaustive"], bool):
+        extra["exhaustive_parts"] = extra.pop("exhaustive")
+        extra["exhaustive"] = False      # parts of the space are enumerated completely, the run as a whole also samples
+    cov.update(extra)
     ev = {
         "property_id": ctx.prop,
         "tier": ctx.tier,
@@ -312,6 +339,7 @@ def write_evidence(ctx, level="proof", checker_cmd="", trusted_extra=(), violati
         "wall_s": round(time.time() - ctx.t0, 2),
         "violations": violations,
     }
+    _self_check_evidence(ev)
     with open(os.path.join(EVID, f"{ctx.prop}.json"), "w") as fh:
         json.dump(ev, fh, indent=1, sort_keys=True, default=str)
     return ev
